@@ -425,6 +425,7 @@ class Sim:
         self.log_records = []
         self.dh_log = []           # (endpoint, group) for every DiffieHellman.from_group
         self.secrets = []          # (label, bytes) learnt by wrapping the key generation
+        self.forced_urandom = []   # (endpoint name or None, bytes): the next os.urandom(len(bytes)) there returns it
 
     # -- environment ------------------------------------------------------------------------
     def __enter__(self):
@@ -433,7 +434,12 @@ class Sim:
 
         def urandom(n):
             sim.draws.append(('urandom', n))
-            return bytes(sim.rng.getrandbits(8) for _ in range(n))
+            v = bytes(sim.rng.getrandbits(8) for _ in range(n))      # always drawn: the forced value replaces it
+            for k, (who, val) in enumerate(sim.forced_urandom):
+                if len(val) == n and (who is None or (sim.current is not None and sim.current.name == who)):
+                    sim.forced_urandom.pop(k)
+                    return val
+            return v
 
         class SysRand:
             def randrange(self, a, b=None):
@@ -588,12 +594,12 @@ def conf_pair(ip1='192.168.0.1', ip2='192.168.0.2', dh=('ecp256',), encr=('aes25
               child_integ=('sha256',), child_dh=(), ip_proto='tcp', peer_port_a=0, lifetime=300,
               ike_lifetime=900, dpd=60, psk_a='testing', psk_b='testing2', id_a='alice@openikev2',
               id_b='bob@openikev2', subnets=None, dh_b=None, rsa=None, index_a=1, index_b=2,
-              peer_psk_seen_by_b=None, peer_id_seen_by_b=None):
+              peer_psk_seen_by_b=None, peer_id_seen_by_b=None, child_dh_b=None):
     """Two compatible (or deliberately incompatible) single-connection configurations."""
-    def protect(my_port, peer_port, index, my_subnet=None, peer_subnet=None):
+    def protect(my_port, peer_port, index, my_subnet=None, peer_subnet=None, cdh=None):
         d = {'index': index, 'ip_proto': ip_proto, 'mode': mode, 'lifetime': lifetime, 'my_port': my_port,
              'peer_port': peer_port, 'ipsec_proto': ipsec_proto, 'encr': list(child_encr),
-             'integ': list(child_integ), 'dh': list(child_dh)}
+             'integ': list(child_integ), 'dh': list(child_dh if cdh is None else cdh)}
         if my_subnet:
             d['my_subnet'] = my_subnet
         if peer_subnet:
@@ -611,7 +617,7 @@ def conf_pair(ip1='192.168.0.1', ip2='192.168.0.2', dh=('ecp256',), encr=('aes25
         'peer_auth': {'id': peer_id_seen_by_b or id_a, 'psk': peer_psk_seen_by_b or psk_a},
         'dh': list(dh_b or dh), 'integ': list(integ), 'prf': list(prf), 'encr': list(encr),
         'lifetime': ike_lifetime, 'dpd': dpd,
-        'protect': [protect(peer_port_a, 0, index_b, sub_b, sub_a)]}}
+        'protect': [protect(peer_port_a, 0, index_b, sub_b, sub_a, child_dh_b)]}}
     if rsa:
         priv_a, pub_a, priv_b, pub_b = rsa
         conf_a['conn']['my_auth'] = {'id': id_a, 'privkey': priv_a}
